@@ -1,10 +1,184 @@
 /* genx4.c -- generators: pump, inotify */
 #define _GNU_SOURCE
+#include <errno.h>
 #include <string.h>
+#include <sys/inotify.h>
+#include <sys/socket.h>
 #include "hz.h"
+
+int gx_R(int n);
+int gx_P(int pct);
+int gx_add_obj(int kind, int owner);
+struct pop *gx_add_op(int ctx, int ctxid, int when, int op, int64_t d, int64_t a, int64_t b, int64_t c);
+void gx_add_fault(int site, int tid, int k, int sticky, int err, int mode, int64_t param);
+void gx_common_cfg(int n);
+void gx_absent(int pct);
+void gx_eintr(int nloops, int pct);
+int64_t gx_delta(void);
+uint64_t gx_u64(void);
+#define R gx_R
+#define P gx_P
+#define SEC 1000000000LL
+#define MS 1000000LL
+static struct plan *G;
+
+/* ---- C17: pump ------------------------------------------------------------------------------- */
+static void gen_pump(int tier)
+{
+	int npumps = 1 + (P(30) ? 1 + R(2) : 0), i, big = tier > 0, prod, cons;
+
+	gx_common_cfg(3);
+	G->cfg.max_steps = 1500000;
+	G->nthr = 3;
+	G->thr[0].kind = 'L'; G->thr[0].cycles = 1; G->thr[0].deinit = !P(15); G->thr[0].td = 1; G->thr[0].exitmode = P(20);
+	G->thr[1].kind = 'D'; G->thr[1].cycles = 1;
+	G->thr[2].kind = 'D'; G->thr[2].cycles = 1;
+	prod = 1; cons = 2;
+	if (P(45))
+		G->cfg.short_io = 2 + R(4);
+	if (P(35))
+		gx_add_fault(FS_SPLICE, -1, 1, 1, P(50) ? EINVAL : ENOSYS, 0, 0);	/* read/write mode */
+	if (P(15))
+		gx_add_fault(FS_PIPE2, -1, 1, 1, ENOSYS, 0, 0);
+	if (P(25))
+		G->cfg.pipe_sz = 4096;
+	for (i = 0; i < npumps; i++) {
+		int a = gx_add_obj(K_CHAN, -1), b = gx_add_obj(K_CHAN, -1), pu = gx_add_obj(K_PUMP, 0);
+		long total = P(10) ? 0 : P(60) ? 1 + R(20000) : 1 + R(big ? 300000 : 120000), sent = 0;
+		int n;
+		G->obj[a].p[0] = P(50) ? 0 : 1;	/* pipe or socketpair */
+		G->obj[b].p[0] = P(50) ? 0 : 1;
+		if (G->obj[a].p[0] == 0 && P(30)) G->obj[a].p[1] = 4096;
+		if (G->obj[b].p[0] == 0 && P(30)) G->obj[b].p[1] = 4096;
+		G->obj[a].p[2] = 1 + (int64_t)(gx_u64() % 1000000007ULL);	/* stream seed */
+		G->obj[b].p[2] = G->obj[a].p[2];
+		G->obj[pu].p[0] = a; G->obj[pu].p[1] = 0;	/* the pump reads end 0 of A */
+		G->obj[pu].p[2] = b; G->obj[pu].p[3] = 1;	/* ... and writes end 1 of B */
+		G->obj[pu].p[4] = P(60);			/* RELAY_EOF */
+		if (P(85))
+			gx_add_op(CTX_SETUP, 0, 0, OP_REG, pu, 0, 0, 0);
+		else {
+			int tm = gx_add_obj(K_TIMER, 0);
+			gx_add_op(CTX_SETUP, 0, 0, OP_REG, tm, 1, gx_delta(), 0);
+			gx_add_op(CTX_CB, tm, 1, OP_REG, pu, 0, 0, 0);
+		}
+		/* producer: chunks, pauses, then end of input */
+		n = 0;
+		while (sent < total && n++ < 400) {
+			long chunk = P(30) ? 1 + R(64) : P(50) ? 1 + R(4096) : 1 + R(70000);
+			gx_add_op(CTX_DRV, prod, 0, OP_PRODUCE, a, 1, chunk, 0);
+			sent += chunk > 4096 && G->obj[a].p[0] == 0 ? 4096 : chunk;
+			if (P(25))
+				gx_add_op(CTX_DRV, prod, 0, OP_SLEEP, 0, P(70) ? 1000 * (1 + R(1000)) : gx_delta(), 0, 0);
+		}
+		if (P(85)) {
+			if (G->obj[a].p[0] == 0 || P(50))
+				gx_add_op(CTX_DRV, prod, 0, OP_CLOSE, a, 1, 0, 0);
+			else
+				gx_add_op(CTX_DRV, prod, 0, OP_SHUTDOWN, a, 1, SHUT_WR, 0);
+		}
+		/* consumer: drains by arbitrary amounts at arbitrary times, long stalls => back-pressure */
+		n = 2 + R(big ? 120 : 50);
+		while (n-- > 0) {
+			if (P(45))
+				gx_add_op(CTX_DRV, cons, 0, OP_SLEEP, 0, P(70) ? 1000 * (1 + R(5000)) : gx_delta(), 0, 0);
+			gx_add_op(CTX_DRV, cons, 0, OP_CONSUME, b, 0, P(30) ? 1 + R(100) : P(50) ? 1 + R(5000) : 65536, 0);
+		}
+		if (P(8))
+			gx_add_op(CTX_DRV, cons, 0, OP_CLOSE, b, 0, 0, 0);	/* consumer goes away early */
+		if (P(6)) {
+			/* destroyed in mid-stream by the application */
+			int tm = gx_add_obj(K_TIMER, 0);
+			gx_add_op(CTX_SETUP, 0, 0, OP_REG, tm, 1, gx_delta(), 0);
+			gx_add_op(CTX_CB, tm, 1, OP_UNREG, pu, 0, 0, 0);
+		}
+		if (P(12))
+			gx_add_fault(P(70) ? FS_WRITE : FS_READ, 1, 1 + R(40), 0, P(50) ? EIO : EPIPE, 0, 0);
+	}
+	gx_absent(8);
+	gx_eintr(1, 12);
+}
+
+/* ---- C20: inotify ---------------------------------------------------------------------------- */
+static void gen_inot(int tier)
+{
+	static const uint32_t masks[] = {
+		IN_ALL_EVENTS, IN_CREATE | IN_DELETE | IN_MOVED_FROM | IN_MOVED_TO, IN_MODIFY | IN_ATTRIB,
+		IN_CLOSE_WRITE | IN_OPEN | IN_CLOSE_NOWRITE, IN_DELETE_SELF | IN_MOVE_SELF | IN_MODIFY | IN_ATTRIB,
+		IN_ALL_EVENTS | IN_ONESHOT, IN_MODIFY | IN_ONESHOT,
+	};
+	int ninst = 1 + P(30), i, j, big = tier > 0, watches[40], nw = 0, insts[2], len;
+
+	gx_common_cfg(2);
+	G->nthr = 2;
+	G->thr[0].kind = 'L'; G->thr[0].cycles = 1; G->thr[0].deinit = !P(15); G->thr[0].td = 1; G->thr[0].exitmode = P(20);
+	G->thr[1].kind = 'D'; G->thr[1].cycles = 1;
+	if (P(20))
+		G->cfg.strategy = 0, G->cfg.p_switch = 0;	/* bursts stay together */
+	for (i = 0; i < ninst; i++) {
+		int in = gx_add_obj(K_INOT, 0), n = 1 + R(big ? 8 : 6);
+		insts[i] = in;
+		gx_add_op(CTX_SETUP, 0, 0, OP_REG, in, 0, 0, 0);
+		for (j = 0; j < n && nw < 38; j++) {
+			int w = gx_add_obj(K_WATCH, 0);
+			G->obj[w].p[0] = in;
+			G->obj[w].p[1] = R(8);
+			G->obj[w].p[2] = masks[R(7)];
+			watches[nw++] = w;
+			if (P(80))
+				gx_add_op(CTX_SETUP, 0, 0, OP_REG, w, 0, 0, 0);
+		}
+	}
+	for (i = 0; i < nw; i++) {
+		int w = watches[i], na = R(4);
+		while (na-- > 0) {
+			int when = P(35) ? 0 : 1 + R(4), r = R(100);
+			if (r < 30)
+				gx_add_op(CTX_CB, w, when, OP_UNREG, w, 0, 0, 0);
+			else if (r < 55)
+				gx_add_op(CTX_CB, w, when, OP_UNREG, watches[R(nw)], 0, 0, 0);
+			else if (r < 65)
+				gx_add_op(CTX_CB, w, when, OP_UNREG, insts[R(ninst)], 0, 0, 0);
+			else if (r < 85)
+				gx_add_op(CTX_CB, w, when, OP_REG, watches[R(nw)], 0, 0, 0);
+			else
+				gx_add_op(CTX_CB, w, when, OP_FSOP, R(8), R(7), 0, 0);
+		}
+	}
+	len = 4 + R(big ? 80 : 40);
+	while (len-- > 0) {
+		int r = R(100);
+		if (r < 18)
+			gx_add_op(CTX_DRV, 1, 0, OP_SLEEP, 0, gx_delta(), 0, 0);
+		else {
+			/* bursts put several records into one read */
+			int burst = P(50) ? 1 : 2 + R(6);
+			while (burst-- > 0)
+				gx_add_op(CTX_DRV, 1, 0, OP_FSOP, R(8), R(7), 0, 0);
+		}
+	}
+	if (P(20)) {
+		int tm = gx_add_obj(K_TIMER, 0);
+		gx_add_op(CTX_SETUP, 0, 0, OP_REG, tm, 1, gx_delta(), 0);
+		gx_add_op(CTX_CB, tm, 1, OP_UNREG, insts[R(ninst)], 0, 0, 0);
+		if (P(50))
+			gx_add_op(CTX_CB, tm, 1, OP_REG, insts[R(ninst)], 0, 0, 0);
+	}
+	gx_absent(8);
+	gx_eintr(1, 12);
+}
 
 int gen_ext4(struct plan *p, const char *scenario, const char *prop, int tier)
 {
-	(void)p; (void)scenario; (void)prop; (void)tier;
+	(void)prop;
+	G = p;
+	if (!strcmp(scenario, "pump")) {
+		gen_pump(tier);
+		return 0;
+	}
+	if (!strcmp(scenario, "inot")) {
+		gen_inot(tier);
+		return 0;
+	}
 	return -1;
 }
